@@ -186,8 +186,7 @@ def resume(kind, dim, cfg, k, path):
             import shutil
             shutil.rmtree(d, ignore_errors=True)
         obs = []
-        if path != 'frequency' or kind != 'Powell':
-            obs += same_state(full_state(s), full_state(r), 'restored == saved')
+        obs += same_state(full_state(s), full_state(r), 'restored == saved')
         snap_r = full_state(r)
         # continue the original, recording the draws ...
         tape = []
@@ -198,11 +197,16 @@ def resume(kind, dim, cfg, k, path):
         obs += same_state(snap_r, full_state(r), 'restored untouched while the original advanced')
         # ... and continues identically under the same draws
         at.replay = list(at.tape)
-        run_step(r, 'rest', kind, replay=list(tape))
+        try:
+            run_step(r, 'rest', kind, replay=list(tape))
+        except (TypeError, IndexError, AttributeError) as e:
+            # a restored solver that cannot take a step at all (a dump taken in the middle of an iteration)
+            at.replay = None
+            return obs + [('restored solver can continue', const(False))]
         at.replay = None
+        obs.append(('restored solver can continue', const(True)))
         after_r = full_state(r)
-        if path != 'frequency' or kind != 'Powell':
-            obs += same_state(after_s, after_r, 'continued run == uninterrupted run')
+        obs += same_state(after_s, after_r, 'continued run == uninterrupted run')
         obs.append(('original untouched while the restored advanced', And(*[o for _, o in same_state(after_s, full_state(s), 'x')])))
         co, cr = CURRENT['owner_calls'].get('orig', []), CURRENT['owner_calls'].get('rest', [])
         obs.append(('restored solver counts its own evaluations', eq(after_r['evals'] - snap_r['evals'], len(cr))))
@@ -221,6 +225,7 @@ def instances(tier, seed):
         grid += [('NM', 2, 'plain', 1, p) for p in ('save', 'deepcopy')]
         grid += [('Powell', 1, 'plain', k, p) for k in (1, 2) for p in ('save', 'deepcopy')]
         grid += [('Powell', 1, 'cons', 1, 'save')]
+        grid += [('Powell', 1, 'plain', k, 'frequency') for k in (0, 1, 2)]
         grid += [(kind, 1, 'plain', 0, p) for kind in ('DE', 'DE2') for p in ('save', 'deepcopy')]
         grid += [('DE', 1, 'box+cons+pen', 0, 'save')]
     else:
